@@ -20,16 +20,16 @@ Notation bf := (BinarySingleNaN.binary_float prec emax).
 Definition rndNE (x : R) : R := round radix2 (FLT_exp (3 - emax - prec) prec) ZnearestE x.
 
 (* the value of the scale factor 2^(bits-1) *)
-Definition scale (i : fmt) : R := bpow radix2 (bits i - 1).
+Definition fscale (i : fmt) : R := bpow radix2 (bits i - 1).
 
 Definition i2f_spec (i : fmt) (z : Z) (r : res bf) : Prop :=
-  exists f, r = Ok f /\ is_finite f = true /\ B2R f = (rndNE (IZR (amp i z)) / scale i)%R.
+  exists f, r = Ok f /\ is_finite f = true /\ B2R f = (rndNE (IZR (amp i z)) / fscale i)%R.
 
 (* the documented input domain of the float -> integer conversions (conv.rs:10-14) *)
 Definition in_domain (f : bf) : Prop := is_finite f = true /\ (-1 <= B2R f < 1)%R.
 
 Definition f2i_val (i : fmt) (f : bf) : Z :=
-  Ztrunc (B2R f * scale i) + (if signed i then 0 else half i).
+  Ztrunc (B2R f * fscale i) + (if signed i then 0 else half i).
 End G.
 
 (* the signed format of the same width (unsigned conversions go through it) *)
